@@ -142,7 +142,11 @@ def run(case, ctx):
             pterm = PC.mkpath(parts)
         elif via == "spec":
             try:
-                specs = [build.part_spec(p) for p in pterm["parts"]]
+                import random, zlib
+                sp = build.Spelling(random.Random(zlib.crc32(repr(pterm).encode())))
+                specs = [build.part_spec(p, sp) for p in pterm["parts"]]
+                for f in sp.features:
+                    ctx.count("spelling:" + f)
             except build.Inexpressible:
                 ctx.count("skipped:inexpressible")
                 return
